@@ -1,4 +1,4 @@
-"""C05 — the compression pipeline always terminates (queue-protocol level).
+"""C05 — the compression pipeline always terminates (queue-protocol level + whole-pipeline level, see the end of this file).
 E2 (mirsym) with the thread scheduler over the real MemoryBoundedQueue push/pull/close MIR: one or two producers pushing
 items of symbolic size (including larger than the whole capacity) and then the close, N consumers pulling until
 end-of-stream (the shape of push...finalize with the workers as the queue's environment). No reachable state in which
@@ -31,5 +31,31 @@ THOROUGH = [T("T_over_p1c2", [2], 2, [2], [1, 2, 3]).name, T("T_over_p1c1", [3],
 def run(ctx):
     insts = [INSTANCES[n] for n in (QUICK if ctx["tier"] == "quick" else THOROUGH)]
     return run_instances("C05", "harness.C05", insts, ctx,
-                         assumptions=["the workers are represented by consumers that pull until end-of-stream; worker_thread, the barrier rounds and drain/sync_and_flush polling are outside the claim",
+                         assumptions=["queue-level instances: the workers are represented by consumers that pull until end-of-stream",
+                                      "pipeline-level instances (pipe_*): the real worker_thread, barrier rounds, sync tokens, drain/sync_and_flush polling and finalize run on concrete small inputs; schedules are bounded by the stated preemption bound; thread::sleep in a polling loop hands the processor to another runnable thread, and a poller that can never be released is reported as a livelock",
+                                      "single-file (concatenated) mode uses release-profile integer semantics (the dev profile panics on the sync-token priority: known finding F7 under C18)",
                                       "std Mutex/Condvar model as in C06 (no spurious wake-ups, no fairness assumption needed: every enabled choice is explored)"])
+
+
+# ---------------------------------------------------------------------------------------------------------------
+# Pipeline level: the real constructor + worker_thread x N + push / drain / sync_and_flush / finalize under every schedule within
+# the preemption bound: no deadlock, no livelock in the polling loops, every worker leaves every round and exits, finalize
+# returns Ok and the archive holds every pushed contig. (harness/pipe.py)
+from mirsym.values import Int as _Int
+from harness.pipe import Pipeline, SPL, TWO, THREE
+
+
+def PL(name, threads, samples, **kw):
+    i = Pipeline(name, threads, samples, splitters=SPL, view="term", **kw)
+    i.required_witnesses = ("finalized", "extracted") + (("drained",) if i.driver != "api" else ())
+    return _reg(i)
+
+
+_P2 = _Int(64, 0, 2)
+QUICK += [PL("pipe_api_t1_smallq", 1, TWO, preempt=1, qcap=8).name,              # every contig but one is larger than the whole queue
+          PL("pipe_api_t2", 2, TWO, preempt=1).name,
+          PL("pipe_multi_t2", 2, THREE, preempt=0, driver="multi", qcap=20).name,
+          PL("pipe_single_t2", 2, THREE, preempt=0, driver="single", pack_size=_P2).name]
+THOROUGH += [PL("T_pipe_api_t3", 3, TWO, preempt=1, qcap=8).name, PL("T_pipe_multi_t2_p1", 2, THREE, preempt=1, driver="multi", qcap=20).name,
+             PL("T_pipe_single_t2_p1", 2, THREE, preempt=1, driver="single", pack_size=_P2).name, PL("T_pipe_single_t3", 3, THREE, preempt=0, driver="single", pack_size=_P2, qcap=8).name,
+             PL("T_pipe_api_t1_p2", 1, TWO, preempt=2, qcap=8).name]
